@@ -740,6 +740,10 @@ macro_rules! impl_binop_match_arms {
             },
               #[cfg(all(feature = $value_string, feature = "matrixd"))]
             (Value::[<Matrix $lhs_type>](Matrix::DMatrix(lhs)), Value::[<Matrix $lhs_type>](Matrix::DMatrix(rhs))) => {
+              if lhs.borrow().shape() != rhs.borrow().shape() {
+                let (lhs_shape, rhs_shape) = (lhs.borrow().shape(), rhs.borrow().shape());
+                return Err(MechError::new(DimensionMismatch { dims: vec![lhs_shape.0, lhs_shape.1, rhs_shape.0, rhs_shape.1] }, None).with_compiler_loc());
+              }
               let (rows,cols) = {lhs.borrow().shape()};
               $registrar!([<$lib MDMD>], $target_type, $value_string);
               Ok(Box::new([<$lib MDMD>]{lhs, rhs, out: Ref::new(DMatrix::from_element(rows,cols,$target_type::default()))}))
@@ -762,6 +766,10 @@ macro_rules! impl_binop_match_arms {
             },
             #[cfg(all(feature = $value_string, feature = "row_vectord"))]
             (Value::[<Matrix $lhs_type>](Matrix::RowDVector(lhs)), Value::[<Matrix $lhs_type>](Matrix::RowDVector(rhs))) => {
+              if lhs.borrow().shape() != rhs.borrow().shape() {
+                let (lhs_shape, rhs_shape) = (lhs.borrow().shape(), rhs.borrow().shape());
+                return Err(MechError::new(DimensionMismatch { dims: vec![lhs_shape.0, lhs_shape.1, rhs_shape.0, rhs_shape.1] }, None).with_compiler_loc());
+              }
               $registrar!([<$lib RDRD>], $target_type, $value_string);
               Ok(Box::new([<$lib RDRD>]{lhs: lhs.clone(), rhs, out: Ref::new(RowDVector::from_element(lhs.borrow().len(),$target_type::default())) }))
             },
@@ -783,6 +791,10 @@ macro_rules! impl_binop_match_arms {
             },
             #[cfg(all(feature = $value_string, feature = "vectord"))]
             (Value::[<Matrix $lhs_type>](Matrix::DVector(lhs)), Value::[<Matrix $lhs_type>](Matrix::DVector(rhs))) => {
+              if lhs.borrow().shape() != rhs.borrow().shape() {
+                let (lhs_shape, rhs_shape) = (lhs.borrow().shape(), rhs.borrow().shape());
+                return Err(MechError::new(DimensionMismatch { dims: vec![lhs_shape.0, lhs_shape.1, rhs_shape.0, rhs_shape.1] }, None).with_compiler_loc());
+              }
               $registrar!([<$lib VDVD>], $target_type, $value_string);
               Ok(Box::new([<$lib VDVD>]{lhs: lhs.clone(), rhs, out: Ref::new(DVector::from_element(lhs.borrow().len(),$target_type::default())) }))
             },
